@@ -732,7 +732,7 @@ class OP4:
             Number of columns in matrix.
         """
         # Scan matrix by column
-        icol = 1
+        icol = 0
         bi = self._bytes_i
         delta = 4 - bi
         while icol <= cols:
